@@ -32,8 +32,19 @@ impl ArrayImpl {
         })
     }
 
+    /// An array of NULLs of the type of `like`.
+    fn nulls_like(len: usize, like: &ArrayImpl) -> ArrayImpl {
+        let mut builder = ArrayBuilderImpl::from_type_of_array(like);
+        builder.push_n(len, &DataValue::Null);
+        builder.finish()
+    }
+
     /// Perform unary operation.
     pub fn unary_op(&self, op: &UnaryOperator) -> Result {
+        // an operation on the NULL literal (it has a type of its own) yields NULL
+        if let A::Null(_) = self {
+            return Ok(self.clone());
+        }
         Ok(match op {
             UnaryOperator::Plus => match self {
                 A::Int32(_) | A::Int64(_) | A::Float64(_) | A::Decimal(_) | A::Interval(_) => {
@@ -288,6 +299,21 @@ impl ArrayImpl {
 
     /// Select values from `true_array` or `false_array` according to the boolean value of `self`.
     pub fn select(&self, true_array: &Self, false_array: &Self) -> Result {
+        // NULL literals: a branch takes the type of the other branch, and a condition that is
+        // the NULL literal selects the ELSE branch for every row
+        match (true_array, false_array) {
+            (A::Null(_), A::Null(_)) => return Ok(true_array.clone()),
+            (A::Null(a), _) => {
+                return self.select(&Self::nulls_like(a.len(), false_array), false_array);
+            }
+            (_, A::Null(b)) => {
+                return self.select(true_array, &Self::nulls_like(b.len(), true_array));
+            }
+            _ => {}
+        }
+        if let A::Null(_) = self {
+            return Ok(false_array.clone());
+        }
         let A::Bool(s) = self else {
             return Err(ConvertError::NoUnaryOp("case".into(), self.type_string()));
         };
@@ -357,6 +383,14 @@ impl ArrayImpl {
     /// Perform binary operation.
     pub fn binary_op(&self, op: &BinaryOperator, other: &ArrayImpl) -> Result {
         use BinaryOperator::*;
+        // The NULL literal has a type of its own: it takes the type of the other operand
+        // (`NULL AND false` is still FALSE), and an operation on two of them yields NULL.
+        match (self, other) {
+            (A::Null(_), A::Null(_)) => return Ok(self.clone()),
+            (A::Null(a), _) => return Self::nulls_like(a.len(), other).binary_op(op, other),
+            (_, A::Null(b)) => return self.binary_op(op, &Self::nulls_like(b.len(), self)),
+            _ => {}
+        }
         match op {
             Plus => self.add(other),
             Minus => self.sub(other),
